@@ -507,7 +507,7 @@ def r12(ctx: RuleCtx) -> None:
 
 def r13(ctx: RuleCtx) -> None:
     from .. import rx
-    from ..consteval import fold_expr
+    from .c01_sym import fold_expr
     from .c01_sym import sym_paths, is_call, subterms
     repo = ctx.repo
     smod = repo.module(STRING)
@@ -707,3 +707,278 @@ def dict_values_order(ctx: RuleCtx) -> None:
         ctx.require(k == 'sorted', 'dict.values() enumerates the values in the order of the sorted keys', mod, f'DictHolder.{fm.name}', f'dict.values order source: {k}',
                     f'dict.values() returns `{short(r.value, 70)}`: the values come in insertion order of the held dictionary; the reference prescribes the order of the sorted keys '
                     '(matching dict.keys())', r)
+
+
+# ---------------------------------------------------------------------------
+# R15: a core-language callable that takes an arbitrary value receives it unflattened
+# ---------------------------------------------------------------------------
+
+DECOR_REL = 'mesonbuild/interpreterbase/decorators.py'
+BASEOBJ_REL = 'mesonbuild/interpreterbase/baseobjects.py'
+R15_FILES = [PRIM + f for f in ('array.py', 'dict.py', 'string.py', 'integer.py', 'boolean.py', 'range.py')]
+R15_NAMED = {'mesonbuild/interpreter/interpreter.py': {'set_variable', 'get_variable', 'is_variable', 'unset_variable'},
+             'mesonbuild/interpreter/interpreterobjects.py': {'subproject.get_variable'}}
+
+
+def _expr_guards(node: ast.AST, guards: T.List[T.Tuple[T.Optional[ast.AST], bool]]) -> T.Iterator[T.Tuple[ast.Call, T.List[T.Tuple[T.Optional[ast.AST], bool]]]]:
+    """Calls inside a simple statement / expression with the tests they are control dependent on *within the expression*: arms of a conditional
+    expression, later operands of and/or.  Calls inside comprehensions / lambdas get the unknown guard (None, True)."""
+    if isinstance(node, ast.IfExp):
+        yield from _expr_guards(node.test, guards)
+        yield from _expr_guards(node.body, guards + [(node.test, True)])
+        yield from _expr_guards(node.orelse, guards + [(node.test, False)])
+        return
+    if isinstance(node, ast.BoolOp):
+        g = list(guards)
+        for v in node.values:
+            yield from _expr_guards(v, g)
+            g = g + [(v, isinstance(node.op, ast.And))]
+        return
+    if isinstance(node, (ast.ListComp, ast.SetComp, ast.DictComp, ast.GeneratorExp, ast.Lambda)):
+        guards = guards + [(None, True)]
+    if isinstance(node, ast.Call):
+        yield node, guards
+    for ch in ast.iter_child_nodes(node):
+        yield from _expr_guards(ch, guards)
+
+
+def _flatten_guard_flags(mod: Module, qn: str) -> T.Tuple[T.Set[str], T.List[ast.Call]]:
+    """Flag names under whose absence the dispatcher `qn` flattens the positional arguments: every `flatten(..)` call must be control dependent on
+    `not getattr(<callee>, FLAG, False)` (the test may be named as a local first).  Returns (flags, unguarded flatten calls)."""
+    from .c01_ops import _guarded
+    fn = mod.func(qn)
+    single: T.Dict[str, ast.AST] = {}
+    counts: T.Dict[str, int] = {}
+    for n in ast.walk(fn):
+        if isinstance(n, ast.Assign) and len(n.targets) == 1 and isinstance(n.targets[0], ast.Name):
+            counts[n.targets[0].id] = counts.get(n.targets[0].id, 0) + 1
+            single[n.targets[0].id] = n.value
+        elif isinstance(n, (ast.AugAssign, ast.AnnAssign, ast.NamedExpr)) and isinstance(n.target, ast.Name):
+            counts[n.target.id] = counts.get(n.target.id, 0) + 2
+    flags: T.Set[str] = set()
+    unguarded: T.List[ast.Call] = []
+    nflat = 0
+    for st, guards in _guarded(fn.body, []):
+        if isinstance(st, (ast.If, ast.For, ast.While, ast.With, ast.Try, ast.FunctionDef)):
+            continue
+        calls = [(c, g) for c, g in _expr_guards(st, list(guards)) if (attr_chain(c.func) or '').split('.')[-1] == 'flatten']
+        for c, cguards in calls:
+            nflat += 1
+            found = None
+            inverted = False
+            for test, pol in cguards:
+                if test is None:
+                    continue
+                t, p = test, pol
+                for _ in range(3):
+                    if isinstance(t, ast.UnaryOp) and isinstance(t.op, ast.Not):
+                        t, p = t.operand, not p
+                    elif isinstance(t, ast.Name) and counts.get(t.id) == 1:
+                        t = single[t.id]
+                if isinstance(t, ast.Call) and norm(t.func) == 'getattr' and len(t.args) == 3 and isinstance(t.args[1], ast.Constant) and isinstance(t.args[1].value, str) \
+                        and isinstance(t.args[2], ast.Constant) and t.args[2].value is False:
+                    if p is False:
+                        found = t.args[1].value
+                    else:
+                        inverted = True
+            if found is None and inverted:
+                unguarded.append(c)         # flattened exactly when the callee carries the flag: the polarity is reversed
+            elif found is None:
+                # "unconditional" is claimed only when no enclosing test could carry the flag in another spelling (a helper predicate, hasattr ...)
+                for test, pol in cguards:
+                    t = test
+                    if isinstance(t, ast.Name) and counts.get(t.id) == 1:
+                        t = single[t.id]
+                    if test is None or any(isinstance(x, ast.Call) and norm(x.func) != 'isinstance' for x in ast.walk(t)) or \
+                            any(isinstance(x, ast.Name) and counts.get(x.id, 0) > 1 for x in ast.walk(t)):
+                        raise Undecided(f'{qn}: flatten(..) depends on `{short(test, 60) if test is not None else "a comprehension / lambda"}`, a test this rule does not read')
+                unguarded.append(c)
+            else:
+                flags.add(found)
+    if not nflat:
+        raise Undecided(f'{qn}: no flatten(..) call found - positional arguments are flattened in a way this rule does not read')
+    return flags, unguarded
+
+
+def _object_positions(fn: ast.FunctionDef) -> T.List[T.Tuple[str, str]]:
+    """[(documented name, position description)] of the positional parameters whose declared type admits any value (`object`)."""
+    out = []
+    for d in fn.decorator_list:
+        if isinstance(d, ast.Call) and (attr_chain(d.func) or '').split('.')[-1] == 'typed_pos_args' and d.args and isinstance(d.args[0], ast.Constant):
+            name = str(d.args[0].value)
+
+            def has_object(t: ast.AST) -> bool:
+                return any(norm(x) == 'object' for x in (t.elts if isinstance(t, ast.Tuple) else [t]))
+            for i, t in enumerate(d.args[1:]):
+                if has_object(t):
+                    out.append((name, f'argument #{i + 1}'))
+            for k in d.keywords:
+                if k.arg in ('optargs',):
+                    if not isinstance(k.value, (ast.List, ast.Tuple)):
+                        raise Undecided(f'{fn.name}: optargs is not a list display')
+                    for i, t in enumerate(k.value.elts):
+                        if has_object(t):
+                            out.append((name, f'optional argument #{len(d.args) + i}'))
+                elif k.arg == 'varargs' and has_object(k.value):
+                    out.append((name, 'variadic arguments'))
+            if not out:
+                out.append((name, ''))
+    return out
+
+
+def r15(ctx: RuleCtx) -> None:
+    repo = ctx.repo
+    # consumer side: both dispatchers flatten positional arguments unless the callee carries one and the same flag
+    flags: T.Set[str] = set()
+    for rel, qn in ((IB_REL, 'InterpreterBase.function_call'), (BASEOBJ_REL, 'InterpreterObject.method_call')):
+        mod = repo.module(rel)
+        fl, ung = _flatten_guard_flags(mod, qn)
+        ctx.require(not ung and len(fl) == 1, f'{qn}: positional arguments are flattened only when the callee lacks the flag {sorted(fl)}', mod, qn, 'flatten() guarded by the no-flattening flag',
+                    f'{qn} flattens the positional arguments {"unconditionally (or exactly when the flag is set)" if ung else "under the flags " + str(sorted(fl))}: a callee that asks for unflattened arguments '
+                    '(set_variable, array.contains, dict.get ...) would see a one-element array as its element', ung[0] if ung else mod.func(qn))
+        flags |= fl
+    if len(flags) != 1:
+        ctx.violation(repo.module(IB_REL), 'InterpreterBase.function_call', 'no-flattening flag names', f'function_call and method_call test different flags {sorted(flags)}', None)
+        return
+    flag = next(iter(flags))
+    dm = repo.module(DECOR_REL)
+    setters = set()
+    for q, f in dm.funcs().items():
+        if '.' in q or not f.args.args:
+            continue
+        p0 = f.args.args[0].arg
+        for c in ast.walk(f):
+            if isinstance(c, ast.Call) and norm(c.func) == 'setattr' and len(c.args) == 3 and norm(c.args[0]) == p0 and isinstance(c.args[1], ast.Constant) and c.args[1].value == flag \
+                    and isinstance(c.args[2], ast.Constant) and c.args[2].value is True:
+                setters.add(q)
+    if not setters:
+        raise Undecided(f'decorators.py: no decorator sets the flag {flag!r} the dispatchers test')
+    # producer side: every core-language callable with an `object` positional parameter carries the flag
+    n = 0
+    for rel in R15_FILES + sorted(R15_NAMED):
+        mod = repo.module(rel)
+        for c in ast.walk(mod.tree):
+            if not isinstance(c, ast.ClassDef):
+                continue
+            for fn in c.body:
+                if not isinstance(fn, ast.FunctionDef):
+                    continue
+                pos = [(nm, where) for nm, where in _object_positions(fn) if where and (rel not in R15_NAMED or nm in R15_NAMED[rel])]
+                if not pos:
+                    continue
+                n += 1
+                decos = {(attr_chain(d.func if isinstance(d, ast.Call) else d) or '').split('.')[-1] for d in fn.decorator_list}
+                name = pos[0][0]
+                ctx.require(bool(decos & setters), f'{name}(): takes any value ({", ".join(w for _, w in pos)}) and is marked {sorted(setters)[0]}', mod, f'{c.name}.{fn.name}',
+                            f'{name}: arbitrary-value arguments are not flattened',
+                            f'{name}() accepts any value as {", ".join(w for _, w in pos)} but is not decorated {sorted(setters)[0]}: the dispatcher flattens its positional arguments first, '
+                            'so an array value arrives as its elements (a one-element array as its element, any other length as a wrong argument count)', fn)
+    ctx.floor('core-language callables with a positional parameter typed object', n, 7)
+
+
+# ---------------------------------------------------------------------------
+# R16: range(stop) / range(start, stop[, step]) fails exactly when start < 0, stop < start or step < 1 (docs/yaml/functions/range.yaml)
+# ---------------------------------------------------------------------------
+
+INTERP_REL = 'mesonbuild/interpreter/interpreter.py'
+_ORD = {'Lt': lambda a, b: a < b, 'LtE': lambda a, b: a <= b, 'Gt': lambda a, b: a > b, 'GtE': lambda a, b: a >= b, 'Eq': lambda a, b: a == b, 'NotEq': lambda a, b: a != b}
+
+
+def r16(ctx: RuleCtx) -> None:
+    from .c01_sym import sym_paths, is_call, show
+    repo = ctx.repo
+    mod = repo.module(INTERP_REL)
+    fn = None
+    for st in mod.cls('Interpreter').body:
+        if isinstance(st, ast.FunctionDef) and any(nm == 'range' for nm, _ in _object_positions(st)):
+            fn = st
+    if fn is None:
+        raise Undecided('Interpreter registers no function with typed_pos_args(\'range\', ...)')
+    qn = f'Interpreter.{fn.name}'
+    params = [a.arg for a in fn.args.args]
+    if len(params) < 3:
+        raise Undecided(f'{qn}: unexpected signature')
+    argsp = params[-2]
+    A = [('sub', ('name', argsp), ('const', i)) for i in range(3)]
+    helpers = {s_.name: s_ for s_ in mod.cls('Interpreter').body if isinstance(s_, ast.FunctionDef) and s_.name.startswith('_') and not s_.name.startswith('__')
+               and all(norm(d) == 'staticmethod' for d in s_.decorator_list)}
+    sps = sym_paths(fn, helpers=helpers, mod=mod)
+    # reference: per presence configuration of the optional arguments, the terms playing start / stop / step
+    configs = {(True, True): (('const', 0), A[0], ('const', 1)),         # range(stop)
+               (False, True): (A[0], A[1], ('const', 1)),                # range(start, stop)
+               (False, False): (A[0], A[1], A[2])}                       # range(start, stop, step)
+    NONE = ('const', None)
+
+    def none_test(t: T.Any, v: bool) -> T.Optional[T.Tuple[int, bool]]:
+        if isinstance(t, tuple) and t[0] == 'op' and t[1] in ('Is', 'IsNot', 'Eq', 'NotEq') and len(t[2]) == 2 and NONE in t[2]:
+            x = t[2][0] if t[2][1] == NONE else t[2][1]
+            if x in A[1:]:
+                return A.index(x), (v if t[1] in ('Is', 'Eq') else not v)
+            raise Undecided(f'{qn}: None test on {show(x)}')
+        return None
+    worlds = bad = 0
+    reported: T.Set[str] = set()
+    for (stop_absent, step_absent), (S, E, P) in configs.items():
+        absent = {1: stop_absent, 2: step_absent}
+        for s in (-1, 0, 1, 2):
+            for e in (-2, -1, 0, 1, 2, 3):
+                for p in (-1, 0, 1, 2):
+                    pos: T.Dict[T.Any, int] = {}
+                    for term, val in ((S, s), (E, e), (P, p)):
+                        if term[0] != 'const':
+                            pos[term] = val
+                    if S[0] == 'const' and s != S[1] or P[0] == 'const' and p != P[1]:
+                        continue
+
+                    def value(x: T.Any) -> int:
+                        if isinstance(x, tuple) and x[0] == 'const' and isinstance(x[1], int) and not isinstance(x[1], bool):
+                            return x[1]
+                        if x in pos:
+                            return pos[x]
+                        raise Undecided(f'{qn}: ordering test on {show(x)}, which is not start, stop, step or an integer constant in this call form')
+
+                    def holds(t: T.Any) -> bool:
+                        if isinstance(t, tuple) and t[0] == 'op' and t[1] in _ORD and len(t[2]) == 2:
+                            return _ORD[t[1]](value(t[2][0]), value(t[2][1]))
+                        if isinstance(t, tuple) and t[0] == 'op' and t[1].startswith('Chain:'):
+                            ops = t[1][6:].split(',')
+                            if all(o in _ORD for o in ops):
+                                return all(_ORD[o](value(a), value(b)) for o, a, b in zip(ops, t[2], t[2][1:]))
+                        raise Undecided(f'{qn}: test of unknown shape {show(t)}')
+                    fired = []
+                    for sp in sps:
+                        ok = True
+                        for t, v in sp.conds():
+                            nt = none_test(t, v)
+                            if nt is not None:
+                                ok = absent[nt[0]] == nt[1]
+                            else:
+                                ok = holds(t) == v
+                            if not ok:
+                                break
+                        if ok:
+                            fired.append(sp)
+                    if len(fired) != 1:
+                        raise Undecided(f'{qn}: {len(fired)} paths are consistent with one ordering world')
+                    sp = fired[0]
+                    worlds += 1
+                    want_err = s < 0 or e < s or p < 1
+                    form = 'range(stop)' if stop_absent else 'range(start, stop)' if step_absent else 'range(start, stop, step)'
+                    rel = f'start {"<" if s < 0 else "==" if s == 0 else ">"} 0, stop {"<" if e < s else "==" if e == s else ">"} start, step {"<" if p < 1 else "==" if p == 1 else ">"} 1'
+                    if want_err:
+                        good = sp.outcome == 'raise'
+                        got = 'returns ' + show(sp.result) if not good else ''
+                    else:
+                        r = sp.result
+                        good = sp.outcome == 'return' and is_call(r) and r[2].split('.')[-1] == 'RangeHolder' and tuple(r[4]) == (S, E, P)
+                        got = ('raises ' + (r[2] if is_call(r) else show(r))) if sp.outcome == 'raise' else 'returns ' + show(r)
+                    if not good:
+                        bad += 1
+                        key = f'{form}: {"error expected" if want_err else "range expected"}; {got.split("(")[0]}'
+                        if key not in reported:
+                            reported.add(key)
+                            ctx.violation(mod, qn, key, f'{form} with {rel}: the code {got}; the reference (start >= 0, stop >= start, step >= 1, defaults start=0 step=1) requires '
+                                          f'{"an error" if want_err else "RangeHolder(start, stop, step)"}', sp.last_node)
+    if not bad:
+        ctx.ok(f'{qn}: fails exactly for start < 0, stop < start or step < 1 and otherwise builds RangeHolder(start, stop, step) with the documented defaults ({worlds} ordering worlds x 3 call forms)')
+    ctx.floor(f'{qn}: ordering worlds compared', worlds, 60)
